@@ -119,9 +119,8 @@ def generate(rng, tier):
     cases.append(G.mk([1, 2, 3, 4], ["equal", "dies_before", "equal", "different"], rate=5, probe="F08"))
     cases.append(G.mk([1, 2, 3], ["late", "hang", "equal"], rate=1, probe="F08"))
     cases.append(G.mk([1, 2, 3, 4], ["equal", "drops", "equal", "different"], rate=5, probe="F08"))
-    if tier != "quick":
-        from lib import eqreal
-        cases += eqreal.real_cases("C08")
+    from lib import eqreal
+    cases += eqreal.real_cases("C08", tier)         # (quick: two scripts, about 4 s; thorough: all)
     return cases
 
 
